@@ -32,6 +32,9 @@ func afScenario(st *state, mps, n int, typ string, id int) string {
 		conn = append(conn, fmt.Sprintf("mps=%d", mps))
 	}
 	if r := runners["bk.conn"](st, conn); !strings.Contains(r, "CONNACK:sp0:rc00") {
+		if strings.HasPrefix(r, "timeout-") { // the harness's own waiting limit: bin/check runs the sequence again alone
+			return r
+		}
 		return "other(conn:" + r + ")"
 	}
 	var fs []string
@@ -57,7 +60,10 @@ func afScenario(st *state, mps, n int, typ string, id int) string {
 	if closed {
 		return "closed"
 	}
-	if strings.HasPrefix(out, "timeout") || out == "no-conn" {
+	if strings.HasPrefix(out, "timeout-") {
+		return out
+	}
+	if out == "no-conn" {
 		return "other(" + out + ")"
 	}
 	return "silent"
